@@ -1076,6 +1076,17 @@ class Choice(object):
                 taglist.append(tag)
                 break
 
+            elif isinstance(value, list) and ((element.klass in _sequence_of_classes) or (element.klass in _list_of_classes)):
+                # a plain list, as decode() delivers it
+                helper = element.klass(value)
+
+                if element.context is not None:
+                    taglist.append(OpeningTag(element.context))
+                helper.encode(taglist)
+                if element.context is not None:
+                    taglist.append(ClosingTag(element.context))
+                break
+
             elif isinstance(value, element.klass):
                 # encode an opening tag
                 if element.context is not None:
